@@ -74,6 +74,11 @@ def parseVal0 (s : String) : Option (Option Validator) :=
   else if s = "any" then some (some .any)
   else match s.splitOn ":" with
     | ["single", u, p] => do let u ← parseCps u; let p ← parseCps p; pure (some (.single u p))
+    | ["file", c] => do
+      -- the htpasswd file's content: parsed by the model's transcription of HtpasswdFile.__init__
+      let c ← parseCps c
+      let es ← Ht.parse c
+      pure (some (.table es))
     | ["table", es] => do
       let es ← (es.splitOn ",").mapM (fun e => match e.splitOn "=" with
         | [u, h] => do let u ← parseCps u; let h ← parseCps h; pure (u, h)
@@ -201,6 +206,17 @@ def stepLine (line : String) : String :=
   | ["b2a", h] =>
     match hexOr h with
     | some b => showBytes ((B64.b2a (b.map (·.toNat))).map UInt8.ofNat)
+    | none => "bad-op"
+  | ["conf", t] =>
+    let arg : Option (Option Text) := if t = "none" then some none else (parseCps t).map some
+    match arg with
+    | some a => match configureSpec a with
+      | .off => "off"
+      | .any => "any"
+      | .htpasswd p => "ht " ++ showCps p
+      | .ldap _ => "ldap"
+      | .single u p => "single " ++ showCps u ++ " " ++ showCps p
+      | .invalid => "invalid"
     | none => "bad-op"
   | ["htparse", t] =>
     match parseCps t with
